@@ -2,5 +2,5 @@ INIT TInit
 NEXT TNextP
 CONSTANT C0 <- TraceC0
 CONSTRAINT Mark
-POSTCONDITION AllAccepted
+POSTCONDITION AllAcceptedPos
 CHECK_DEADLOCK FALSE
